@@ -14,6 +14,7 @@ import (
 	"encoding/json"
 	"fmt"
 	"math/big"
+	"math/rand"
 	"strings"
 	"unicode"
 
@@ -38,6 +39,13 @@ type Case struct {
 	B     *Triple  `json:"b"`
 	Items []Triple `json:"items"`
 	Toks  []string `json:"toks"`
+	// bigsort: digit vectors <<kind index, r4, r3, r2, r1, r0, vh, vl>>
+	Kinds []string `json:"kinds"`
+	Dom   [][]int  `json:"dom"`
+	First []int    `json:"first"`
+	Last  []int    `json:"last"`
+	Order string   `json:"order"`
+	Seed  int64    `json:"seed"`
 }
 
 type Limbs [4]int
@@ -437,6 +445,138 @@ func runSort(c Case) SortGot {
 	return g
 }
 
+// ---- bigsort: a digit-vector pattern expanded to a large list ------------------------------------
+
+type BigGot struct {
+	N        int     `json:"n"`
+	Elements [][]int `json:"elements"` // Elements.Sort
+	EIDs     [][]int `json:"eids"`     // ElementIDs.Sort
+	FIDs     [][]int `json:"fids"`     // FeatureIDs.Sort
+	ByIDVer  [][]int `json:"byidver"`  // Nodes/Ways/Relations.SortByIDVersion when the list has one kind only, else empty
+}
+
+// digits of (kind name, ref, version): index of the name in kinds (0 if absent), 5 ref bytes, 2 version bytes
+func digitsOf(kinds []string, kind string, ref int64, ver int) []int {
+	d := make([]int, 8)
+	for i, k := range kinds {
+		if k == kind {
+			d[0] = i + 1
+		}
+	}
+	for i := 0; i < 5; i++ {
+		d[1+i] = int(uint64(ref) >> uint(8*(4-i)) & 0xFF)
+	}
+	if uint64(ref)>>40 != 0 { // does not fit 5 bytes: make it visible
+		d[1] = -1
+	}
+	d[6], d[7] = ver>>8&0xFF, ver&0xFF
+	if ver>>16 != 0 {
+		d[6] = -1
+	}
+	return d
+}
+
+func runBig(c Case) BigGot {
+	if len(c.Dom) != 8 || len(c.First) != 8 || len(c.Last) != 8 {
+		vio.Must(fmt.Errorf("bigsort case needs 8 positions"), "case")
+	}
+	// expansion: first, the product of dom (odometer, last position fastest), last
+	vecs := [][]int{c.First}
+	idx := make([]int, 8)
+	for {
+		v := make([]int, 8)
+		for j := range v {
+			v[j] = c.Dom[j][idx[j]]
+		}
+		vecs = append(vecs, v)
+		j := 7
+		for ; j >= 0; j-- {
+			idx[j]++
+			if idx[j] < len(c.Dom[j]) {
+				break
+			}
+			idx[j] = 0
+		}
+		if j < 0 {
+			break
+		}
+	}
+	vecs = append(vecs, c.Last)
+	switch c.Order {
+	case "desc":
+		for i, j := 0, len(vecs)-1; i < j; i, j = i+1, j-1 {
+			vecs[i], vecs[j] = vecs[j], vecs[i]
+		}
+	case "shuffle":
+		r := rand.New(rand.NewSource(c.Seed))
+		r.Shuffle(len(vecs), func(i, j int) { vecs[i], vecs[j] = vecs[j], vecs[i] })
+	}
+
+	var es osm.Elements
+	var nodes osm.Nodes
+	var ways osm.Ways
+	var rels osm.Relations
+	oneKind := true
+	for _, v := range vecs {
+		kind := c.Kinds[v[0]-1]
+		var ref int64
+		for i := 0; i < 5; i++ {
+			ref = ref<<8 | int64(v[1+i])
+		}
+		ver := v[6]<<8 | v[7]
+		e := elemKinds[kind].value(ref, ver)
+		es = append(es, e)
+		if v[0] != vecs[0][0] {
+			oneKind = false
+		}
+		switch x := e.(type) {
+		case *osm.Node:
+			nodes = append(nodes, x)
+		case *osm.Way:
+			ways = append(ways, x)
+		case *osm.Relation:
+			rels = append(rels, x)
+		}
+	}
+	eids, fids := es.ElementIDs(), es.FeatureIDs()
+	es.Sort()
+	eids.Sort()
+	fids.Sort()
+	g := BigGot{N: len(vecs), Elements: [][]int{}, EIDs: [][]int{}, FIDs: [][]int{}, ByIDVer: [][]int{}}
+	for _, e := range es {
+		k, id, v := kindOfElement(e)
+		g.Elements = append(g.Elements, digitsOf(c.Kinds, k, id, v))
+	}
+	for _, id := range eids {
+		d := decElem(id)
+		g.EIDs = append(g.EIDs, digitsOf(c.Kinds, d.Type, int64(ValOf(d.Ref)), d.Ver))
+	}
+	for _, id := range fids {
+		d := decFeat(id)
+		g.FIDs = append(g.FIDs, digitsOf(c.Kinds, d.Type, int64(ValOf(d.Ref)), 0))
+	}
+	if oneKind {
+		nodes.SortByIDVersion()
+		ways.SortByIDVersion()
+		rels.SortByIDVersion()
+		for _, x := range nodes {
+			g.ByIDVer = append(g.ByIDVer, digitsOf(c.Kinds, "node", int64(x.ID), x.Version))
+		}
+		for _, x := range ways {
+			g.ByIDVer = append(g.ByIDVer, digitsOf(c.Kinds, "way", int64(x.ID), x.Version))
+		}
+		for _, x := range rels {
+			g.ByIDVer = append(g.ByIDVer, digitsOf(c.Kinds, "relation", int64(x.ID), x.Version))
+		}
+	}
+	return g
+}
+
+// ValOf is the inverse of limbs.
+func ValOf(l Limbs) uint64 {
+	return uint64(l[0])<<48 | uint64(l[1])<<32 | uint64(l[2])<<16 | uint64(l[3])
+}
+
 func runText(c Case) TextGot {
 	s := strings.Join(c.Toks, "")
 	return TextGot{S: s, Obj: parseObj(s), Elem: parseElem(s), Feat: parseFeat(s)}
@@ -454,6 +594,8 @@ func main() {
 			got = runPair(c)
 		case "sort":
 			got = runSort(c)
+		case "bigsort":
+			got = runBig(c)
 		case "text":
 			got = runText(c)
 		default:
